@@ -45,7 +45,7 @@ func blockingOps(fn *ssa.Function) []blockOp {
 		for _, in := range b.Instrs {
 			switch x := in.(type) {
 			case *ssa.Send:
-				out = append(out, blockOp{fn: fn, instr: x, kind: "send", sends: []string{desc(x.Chan)}, desc: desc(x.Chan) + "<-"})
+				out = append(out, blockOp{fn: fn, instr: x, kind: "send", sends: []string{poppedChanDesc(x.Chan)}, desc: desc(x.Chan) + "<-"})
 			case *ssa.UnOp:
 				if x.Op == token.ARROW {
 					out = append(out, blockOp{fn: fn, instr: x, kind: "recv", recvs: []string{timerChanDesc(x.X)}, desc: "<-" + desc(x.X)})
@@ -71,6 +71,83 @@ func blockingOps(fn *ssa.Function) []blockOp {
 		}
 	}
 	return out
+}
+
+// poppedChanDesc: a channel that was itself received from a channel-of-channels field (the per-request result channel
+// idiom: popped with a non-blocking select, possibly nil) is named after that field, whether the pop is written inline
+// (a phi of the received value and nil) or in a small closure/helper that returns it.
+func poppedChanDesc(ch ssa.Value) string {
+	var fieldOf func(v ssa.Value, d int) string
+	fieldOf = func(v ssa.Value, d int) string {
+		if d > 4 || v == nil {
+			return ""
+		}
+		switch x := v.(type) {
+		case *ssa.UnOp:
+			if x.Op == token.ARROW {
+				return desc(x.X)
+			}
+		case *ssa.Extract:
+			// value received in a select state
+			if sel, ok := x.Tuple.(*ssa.Select); ok {
+				idx := x.Index - 2
+				n := 0
+				for _, st := range sel.States {
+					if st.Dir == types.RecvOnly {
+						if n == idx {
+							return desc(st.Chan)
+						}
+						n++
+					}
+				}
+			}
+		case *ssa.Phi:
+			f := ""
+			for _, e := range x.Edges {
+				if isNilConst(e) {
+					continue
+				}
+				g := fieldOf(e, d+1)
+				if g == "" || f != "" && g != f {
+					return ""
+				}
+				f = g
+			}
+			return f
+		case *ssa.Call:
+			var h *ssa.Function
+			if mc, ok := x.Call.Value.(*ssa.MakeClosure); ok {
+				h, _ = mc.Fn.(*ssa.Function)
+			} else {
+				h = x.Call.StaticCallee()
+			}
+			if h == nil || len(h.Blocks) == 0 || len(x.Call.Args) > 1 {
+				return ""
+			}
+			f := ""
+			for _, b := range h.Blocks {
+				if r, ok := b.Instrs[len(b.Instrs)-1].(*ssa.Return); ok && len(r.Results) == 1 {
+					if isNilConst(r.Results[0]) {
+						continue
+					}
+					g := fieldOf(r.Results[0], d+1)
+					if g == "" || f != "" && g != f {
+						return ""
+					}
+					f = g
+				}
+			}
+			return f
+		}
+		return ""
+	}
+	switch ch.(type) {
+	case *ssa.Phi, *ssa.Call:
+		if f := fieldOf(ch, 0); f != "" {
+			return f
+		}
+	}
+	return desc(ch)
 }
 
 // timerChanDesc: the channel's description, marked as a timer channel when it is the C field of a time.Timer or
